@@ -26,6 +26,18 @@ def ident(b):
 SIZES = [20, 20, 1024, 1024, 300 * 1024, 700 * 1024]
 
 
+def alias(rng, path):
+    """Another spelling of the same hub path (accepted by the hub's path check), one time in three."""
+    k = rng.below(9)
+    if k == 0:
+        return "./" + path
+    if k == 1:
+        return path.replace("/", "//") if "/" in path else ".//" + path
+    if k == 2:
+        return path.replace("/", "/./") if "/" in path else "././" + path
+    return path
+
+
 def gen_programs(rng, nclients, big_ok=True, kinds=None, nshared=None):
     shared = ["f", "d/g"][: (nshared or rng.range(1, 2))]
     contents = {"init-f": b"initial content of f", "init-g": b"initial g " * 50}
@@ -47,14 +59,21 @@ def gen_programs(rng, nclients, big_ok=True, kinds=None, nshared=None):
                 size = rng.pick(SIZES if big_ok else SIZES[:4])
                 head = b"%d:%d:%x|" % (c, k, nonce)
                 data = (head * (size // len(head) + 1))[:max(size, len(head))]
+                zk = rng.below(8)
+                if zk == 0:
+                    data = head + bytes(max(size, 8192) - len(head))          # unique head, all zeros after it
+                elif zk == 1:
+                    data = data[: max(len(head), size // 2)] + bytes(rng.pick([4096, 8192, 70000]))  # long zero tail
+                elif zk == 2:
+                    data = data[: size // 2] + bytes(8192) + data[size // 2:]  # zeros in the middle
                 key = "c%d.%d" % (c, k)
                 contents[key] = data
                 exp = rng.pick(["seen"] * 4 + ["init"] * 3 + ["none"] * 2 + ["stale"])
-                prog.append(Op(c, "Put", path, expected=exp, content=key, opno=k, pieces=rng.range(1, 5)))
+                prog.append(Op(c, "Put", path, expected=exp, content=key, opno=k, pieces=rng.range(1, 5), wire=alias(rng, path)))
             elif kind == "Delete":
-                prog.append(Op(c, "Delete", path, expected=rng.pick(["seen", "seen", "init", "none", "stale"]), opno=k))
+                prog.append(Op(c, "Delete", path, expected=rng.pick(["seen", "seen", "init", "none", "stale"]), opno=k, wire=alias(rng, path)))
             elif kind == "Get":
-                prog.append(Op(c, "Get", path, opno=k))
+                prog.append(Op(c, "Get", path, opno=k, wire=alias(rng, path)))
             else:
                 prog.append(Op(c, "List", opno=k))
         prog.append(Op(c, "Bye", opno=99))
@@ -80,7 +99,7 @@ def two_op_programs():
 def clone_programs(programs):
     out = []
     for prog in programs:
-        out.append([Op(o.client, o.kind, o.path, expected=o.expected_spec, content=o.content, opno=o.opno, **o.extra) for o in prog])
+        out.append([Op(o.client, o.kind, o.path, expected=o.expected_spec, content=o.content, opno=o.opno, wire=o.wire, **o.extra) for o in prog])
     return out
 
 
@@ -385,6 +404,8 @@ def _c03_worker(args):
             label = {"generator": mode, "index": idx, "clients": n}
         mon = StepMonitor("C03")
         run = HubRun(wd, n, programs, contents, initial, strat, rng, on_step=mon, b3=b3)
+        if not (isinstance(mode, tuple) and mode[0] == "enum") and rng.chance(1, 4):
+            run.root_alias = {i: rng.pick(["", "/.", "//", "/./"]) for i in range(n)}
         run.run()
         if run.inconclusive:
             res["inconclusive"] += 1
@@ -608,6 +629,8 @@ def _c10_worker(args):
             pass
         mon = StepMonitor("C10")
         run = HubRun(wd, n, programs, contents, initial, strat, rng, on_step=mon, b3=b3)
+        if mode in ("pct", "random", "twinput") and rng.chance(1, 4):
+            run.root_alias = {i: rng.pick(["", "/.", "//", "/./"]) for i in range(n)}
         if badkind or mode == "twinput":
             # resolve bad-put hashes that depend on other contents
             for op in [o for pr in programs for o in pr]:
